@@ -31,8 +31,12 @@ template <class F> static void run_threads(int n, F f) { std::vector<std::thread
 
 // ---- C01 / C05: waits cover the work, the waiter sees the writes
 static std::string sc_c01() {
-    int n = 1 + (int)rnd(40), mode = (int)rnd(4); std::vector<Payload> p((size_t)n + 1);
-    if (mode == 0) { tbb::task_group g; for (int i = 0; i < n; i++) { unsigned d = rnd(200); g.run([&p, i, d] { spin(d); vp_payload_write(&p[(size_t)i], i + 1); }); } g.wait(); }
+    int n = 1 + (int)rnd(40), mode = (int)rnd(5); std::vector<Payload> p((size_t)n + 1), in((size_t)n + 1);
+    // the task also READS what its submitter wrote before the submission (spawn / enqueue publishes the task and its inputs)
+    auto chk = [&in](int i) { long r = vp_payload_read(&in[(size_t)i]); if (r != expect(i + 100)) bad("C01 task did not see its submitter's writes", r, expect(i + 100)); };
+    for (int i = 0; i < n; i++) vp_payload_write(&in[(size_t)i], i + 100 - (mode == 0 || mode == 4 ? 1 : 0));
+    if (mode == 0) { tbb::task_group g; for (int i = 0; i < n; i++) { unsigned d = rnd(200); vp_payload_write(&in[(size_t)i], i + 100); g.run([&p, &chk, i, d] { chk(i); spin(d); vp_payload_write(&p[(size_t)i], i + 1); }); } g.wait(); }
+    else if (mode == 4) { tbb::task_arena a(1 + (int)rnd(3)); std::atomic<int> done{ 0 }; for (int i = 0; i < n; i++) { vp_payload_write(&in[(size_t)i], i + 100); a.enqueue([&p, &chk, &done, i] { chk(i); vp_payload_write(&p[(size_t)i], i + 1); done.fetch_add(1, std::memory_order_release); }); } while (done.load(std::memory_order_acquire) < n) std::this_thread::yield(); }
     else if (mode == 1) { tbb::parallel_for(0, n, [&p](int i) { vp_payload_write(&p[(size_t)i], i + 1); }); }
     else if (mode == 2) { tbb::task_arena a(1 + (int)rnd(4)); a.execute([&] { tbb::parallel_for(tbb::blocked_range<int>(0, n, 1 + rnd(4)), [&p](const tbb::blocked_range<int>& r) { for (int i = r.begin(); i < r.end(); i++) vp_payload_write(&p[(size_t)i], i + 1); }, tbb::simple_partitioner()); }); }
     else { tbb::task_group g; g.run_and_wait([&] { tbb::task_group h; for (int i = 0; i < n; i++) h.run([&p, i] { vp_payload_write(&p[(size_t)i], i + 1); }); h.wait(); }); }
